@@ -16,7 +16,7 @@ def check(an, rep, tier):
         'values of sample_tt.')
     rep.assumptions = pre('PRE-D', 'PRE-IDX', 'PRE-DOC')
     rep.trusted = ['NumPy model (lstsq requires a 2-D left-hand side)']
-    ds = (2, 3) if tier == 'quick' else (2, 3, 4)
+    ds = (2, 3) if tier == 'quick' else (2, 3, 4, 5)
     wh = {'svd.svd_incomplete', 'act_one.get', 'act_one.get_many',
           'svd.matrix_skeleton', 'sample.sample_tt', 'sample.sample_tt.one_mode',
           'sample.sample_lhs'}
